@@ -90,9 +90,9 @@ impl ParseFlags {
     pub const NULL: ParseFlags = ParseFlags { bits: 256 };
     pub const REF: ParseFlags = ParseFlags { bits: 512 };
     pub const ANY: ParseFlags = ParseFlags { bits: 1023 };
-    /// bitflags: `intersects(other)` == some bit of other is set
+    /// bitflags: `intersects(other)` == some bit of other is set (`&` is commutative: stated both ways)
     #[verifier::external_body]
-    pub fn intersects(&self, other: ParseFlags) -> (r: bool) ensures r == (self.bits & other.bits != 0) { unimplemented!() }
+    pub fn intersects(&self, other: ParseFlags) -> (r: bool) ensures r == (self.bits & other.bits != 0), r == (other.bits & self.bits != 0) { unimplemented!() }
 }
 /// bitflags: `impl BitOr for ParseFlags` (R7: the operator is spelled as a call)
 #[verifier::external_body]
